@@ -398,6 +398,20 @@ def t_scan_state(facts, res, tier):
     if loop is None:
         raise AnchorMissing("process(): the line scanner loop was not found")
     res.inst("T-SCAN-STATE:process", True)
+    # nothing before the scanner may skip or alter the line depending on the conditional state either
+    rd = None
+    for n in walk(fn["body"]):
+        if n.get("k") == "while" and "read_line" in norm(n["cond"]):
+            rd = n
+    if rd is not None:
+        for s2 in rd["body"].get("stmts", []):
+            if s2 is loop:
+                break
+            for n in walk(s2):
+                if n.get("k") == "if" and re.search(r"\bstate\b", norm(n["cond"])):
+                    res.fail("T-SCAN-STATE:process:state-dependent-prefilter", facts.where(fn, n),
+                             "before the line scanner runs, the line is skipped or altered depending on the conditional state (`%s`): a `/*` that opens on such a line "
+                             "is never seen, and commented-out #else / #endif lines after it take effect" % norm(n["cond"])[:80])
     for n in walk(loop["body"]):
         if n.get("k") == "if":
             c = norm(n["cond"])
@@ -597,3 +611,224 @@ def t_comment_space(facts, res, tier):
         res.fail("T-COMMENT-SPACE:process:no-separator", facts.where(fn, site),
                  "when a block comment ends and text follows on the same line, nothing is put between what preceded the comment and what follows it: "
                  "`char/**/x` is handed to the parser as `charx`")
+
+
+# ----------------------------------------------------------------------------- round 5
+
+
+@rule("T-LINE-RAW", floor=1,
+      text="between reading a physical line (and joining its splices) and the scanner that hides string literals, the line buffer is not "
+           "rewritten: only the splice handling (pop / push_str / clear / read_line into it) touches it.  Any normalisation of the raw "
+           "line (tabs to blanks, case, trimming) also rewrites the inside of string literals that have not been hidden yet")
+def t_line_raw(facts, res, tier):
+    fn = facts.fn("process", "")
+    rd = None
+    for n in walk(fn["body"]):
+        if n.get("k") == "while" and "read_line" in norm(n["cond"]):
+            rd = n
+    if rd is None:
+        raise AnchorMissing("process(): the line reading loop was not found")
+    buf = None
+    m = re.search(r"read_line\((?:&mut)?(\w+)\)", norm(rd["cond"]))
+    if m:
+        buf = m.group(1)
+    if not buf:
+        raise AnchorMissing("process(): cannot identify the line buffer")
+    res.inst("T-LINE-RAW:process:%s" % buf, True)
+    stmts = rd["body"].get("stmts", [])
+    for s in stmts:
+        if s.get("k") == "while" and "remaining" in norm(s["cond"]):
+            break   # the scanner starts here
+        for n in walk(s):
+            if n.get("k") == "assign" and root_name(n["l"]) == buf and norm(n["l"]) == buf:
+                res.fail("T-LINE-RAW:process:rewritten", facts.where(fn, n),
+                         "the raw line is replaced (`%s = %s`) before string literals are hidden: whatever this rewrites is also rewritten inside string literals "
+                         "on that line (a TAB inside the string of a #define body became a blank)" % (buf, norm(n["r"])[:50]))
+            if n.get("k") == "mcall" and root_name(n["recv"]) == buf and norm(n["recv"]) == buf and n["method"] in (
+                    "replace_range", "make_ascii_lowercase", "make_ascii_uppercase", "retain", "truncate", "insert", "insert_str", "remove", "drain"):
+                res.fail("T-LINE-RAW:process:mutated", facts.where(fn, n), "the raw line is modified in place (`%s.%s`) before string literals are hidden" % (buf, n["method"]))
+
+
+@rule("T-LOOP-INNERMOST", floor=3,
+      text="the loop stack (`loops`) is consulted from its innermost entry: `last()`, `last_mut()`, `pop()` or a reversed search.  A forward "
+           "search (`iter().find/position/any` without `rev()`) returns the outermost enclosing loop, so a `continue` or `break` inside "
+           "nested loops would leave the wrong one")
+def t_loop_innermost(facts, res, tier):
+    import genmodel
+    n_sites = 0
+    for fn in genmodel.gen_fns(facts):
+        for n in walk(fn["body"]):
+            if n.get("k") != "mcall":
+                continue
+            t = norm(n)
+            if not re.match(r"^self\.loops\.", t):
+                continue
+            if n["method"] in ("last", "last_mut", "pop", "push", "is_empty", "len"):
+                n_sites += 1
+                res.inst("T-LOOP-INNERMOST:%s:%d" % (fn["name"], n_sites), True, {"access": n["method"]})
+                continue
+            if n["method"] in ("find", "position", "find_map", "any", "next", "nth", "first", "get"):
+                n_sites += 1
+                res.inst("T-LOOP-INNERMOST:%s:%d" % (fn["name"], n_sites), True, {"access": t[:60]})
+                if ".rev()" not in t and "rposition" not in t and "rfind" not in t:
+                    res.fail("T-LOOP-INNERMOST:%s:outermost-first" % fn["name"], facts.where(fn, n),
+                             "%s searches the loop stack from its outermost entry (`%s`): inside nested loops the entry found is the outer loop's, "
+                             "so the jump emitted for `continue` / `break` leaves the wrong loop" % (fn["name"], t[:70]))
+    if n_sites == 0:
+        raise AnchorMissing("no access to the loop stack found")
+
+
+@rule("T-SHIFT-SIGNED", configs=("default", "atari2600"), floor=2,
+      text="in generate_shift_16bits and generate_shift every emission of a right-shift instruction (LSR / ROR, literally or through a variable "
+           "holding the shift mnemonic) lies under a condition on the signedness of the operand (`signed`, `v.signed`): either branch - the "
+           "point is that the sign was looked at.  An arithmetic right shift of a negative value must keep the sign")
+def t_shift_signed(facts, res, tier):
+    import genmodel
+    for name in ("generate_shift_16bits", "generate_shift"):
+        fn = facts.fn(name, genmodel.GEN_QUAL)
+        # variables that may hold a right-shift mnemonic
+        shiftvars = set()
+        for n in walk(fn["body"]):
+            if n.get("k") in ("let", "assign"):
+                rhs = n.get("init") if n.get("k") == "let" else n.get("r")
+                if rhs is not None and re.search(r"\b(LSR|ROR)\b", norm(rhs)):
+                    shiftvars |= pat_names(n.get("pat")) if n.get("k") == "let" else {root_name(n["l"])}
+        for _ in range(2):
+            for n in walk(fn["body"]):
+                if n.get("k") == "for" and any(re.search(r"\b%s\b" % re.escape(v), norm(n["iter"])) for v in shiftvars if v):
+                    shiftvars |= pat_names(n.get("pat"))
+                if n.get("k") == "let" and n.get("init") is not None and any(re.search(r"\b%s\b" % re.escape(v), norm(n["init"])) for v in shiftvars if v):
+                    shiftvars |= pat_names(n.get("pat"))
+        sites = 0
+        bad = None
+        for n in walk(fn["body"]):
+            if n.get("k") == "mcall" and n["method"] in ("sasm", "asm", "sasm_protected") and n["args"]:
+                a0 = norm(n["args"][0])
+                if re.match(r"^(AsmMnemonic::)?(LSR|ROR)$", a0) or a0 in shiftvars:
+                    sites += 1
+                    g = enclosing_guards(fn["body"], n) or []
+                    if not any("signed" in c for (_, _, c, _) in g):
+                        if bad is None:
+                            bad = n
+        key = "T-SHIFT-SIGNED:%s" % name
+        res.inst(key, True, {"right_shift_emission_sites": sites})
+        if sites == 0:
+            res.fail(key + ":ANCHOR-MISSING", facts.where(fn), "no right-shift emission found in %s" % name)
+        elif bad is not None:
+            res.fail(key, facts.where(fn, bad),
+                     "%s emits a right-shift instruction (`%s`) that is not under any test of the operand's signedness: a negative signed value is shifted "
+                     "logically (`sv = -4; sv >>= 1;` gives 32766)" % (name, norm(bad)[:50]))
+
+
+# ----------------------------------------------------------------------------- C06 (positions initialised with 0)
+
+
+@rule("T-POS-INIT", floor=2,
+      text="a position variable that starts as the literal 0 (`let mut start = 0`) and is filled in while the children of a grammar rule are "
+           "walked is never used as an error position before it has been filled: for every child rule whose arm reports an error at `start`, "
+           "every sequence of children the grammar allows before it contains a child whose arm assigns `start` unconditionally from a span.  "
+           "(Offset 0 is line 1 of the first file: the error would be reported there.)")
+def t_pos_init(facts, res, tier):
+    import rules_treewalk
+    rules = facts.grammar_rules()
+    nfas = rules_treewalk.build_nfas(rules)
+    n_sites = 0
+    for fn in facts.fns:
+        if not fn["file"].endswith("/compile.rs"):
+            continue
+        for blk in walk(fn["body"]):
+            if blk.get("k") != "block":
+                continue
+            stmts = blk.get("stmts", [])
+            for i, s in enumerate(stmts):
+                if not (s.get("k") == "let" and s.get("init") is not None and s["init"].get("k") == "lit" and s["init"].get("v") == 0 and s["init"].get("ty") == "int"):
+                    continue
+                names = pat_names(s.get("pat"))
+                if len(names) != 1:
+                    continue
+                var = next(iter(names))
+                # the loop over children that follows in the same block
+                loop = next((t for t in stmts[i + 1:] if t.get("k") == "for" and "into_inner()" in norm(t["iter"])), None)
+                if loop is None:
+                    continue
+                m = next((x for x in walk(loop["body"]) if x.get("k") == "match" and "as_rule()" in norm(x["e"])), None)
+                if m is None:
+                    continue
+                arms = {}
+                for a in m["arms"]:
+                    for r in re.findall(r"Rule::(\w+)", pat_text(a["pat"])):
+                        arms[r] = a
+                if not arms:
+                    continue
+                # is the variable used as a position at all?
+                def uses(node):
+                    return [c for c in walk(node) if c.get("k") in ("mcall", "call") and any(x.get("k") == "path" and x["segs"] == [var] for x in c["args"])]
+                if not any(uses(a["body"]) for a in arms.values()):
+                    continue
+                # parent grammar rule: the one whose children are exactly what the arms name
+                alphabet = set(arms)
+                cands = []
+                for rn, nfa in nfas.items():
+                    if rn == "__top__":
+                        continue
+                    syms = nfa.reachable_symbols({nfa.start})
+                    if alphabet <= syms:
+                        cands.append((len(syms - alphabet), rn))
+                if not cands:
+                    res.fail("T-POS-INIT:%s:%s:ANCHOR-MISSING" % (fn["name"], var), facts.where(fn, s), "no grammar rule has the children %s" % sorted(alphabet))
+                    continue
+                cands.sort()
+                parent = cands[0][1]
+                nfa = nfas[parent]
+                assigning = set()
+                for r, a in arms.items():
+                    body = a["body"]
+                    top = body.get("stmts", []) if body.get("k") == "block" else [body]
+                    for t in top:
+                        if t.get("k") == "assign" and root_name(t["l"]) == var and "as_span()" in norm(t["r"]):
+                            assigning.add(r)
+                            break
+                        if uses(t):
+                            break   # used before being assigned in this arm
+                n_sites += 1
+                for r, a in sorted(arms.items()):
+                    if not uses(a["body"]):
+                        continue
+                    body = a["body"]
+                    top = body.get("stmts", []) if body.get("k") == "block" else [body]
+                    own_first = False
+                    for t in top:
+                        if t.get("k") == "assign" and root_name(t["l"]) == var and "as_span()" in norm(t["r"]):
+                            own_first = True
+                            break
+                        if uses(t):
+                            break
+                    key = "T-POS-INIT:%s:%s:%s" % (fn["name"], parent, r)
+                    res.inst(key, True, {"variable": var, "assigned_by_children": sorted(assigning)})
+                    if own_first:
+                        continue
+                    # can child r be reached without passing a child that assigns?
+                    seen = set()
+                    front = set(nfa.closure({nfa.start}))
+                    reach = False
+                    stack = list(front)
+                    while stack and not reach:
+                        stt = stack.pop()
+                        if stt in seen:
+                            continue
+                        seen.add(stt)
+                        for sym, t in nfa.trans[stt]:
+                            if sym is None:
+                                stack.append(t)
+                            elif sym == r:
+                                reach = True
+                            elif sym not in assigning:
+                                stack.append(t)
+                    if reach:
+                        u = uses(a["body"])[0]
+                        res.fail(key, facts.where(fn, u),
+                                 "%s reports an error at `%s` in its arm for `%s`, but the grammar rule `%s` lets `%s` come before any child whose arm fills `%s` (%s): "
+                                 "the position is still 0 and the error is reported on line 1 of the first file" % (
+                                     fn["name"], var, r, parent, r, var, ", ".join(sorted(assigning)) or "none does"))
+    if n_sites == 0:
+        raise AnchorMissing("no zero-initialised position variable filled in a loop over children was found")
